@@ -170,6 +170,7 @@ type checkResult struct {
 	Fallback     map[string]int
 	Validated    int
 	LoadSecs     float64
+	PerHarness   map[string]string
 	AbsQueries   int
 	AbsUnsat     int
 	AbsTime      float64
@@ -282,6 +283,7 @@ func runCheck(prop, tier string, seed int, only string, verbose bool, workers in
 	res.Unknowns = ex.Unknowns
 	res.SolverTime = ex.SolverTime.Seconds()
 	res.Status = ex.Status
+	res.PerHarness = ex.PerHarness
 	res.AbsQueries, res.AbsUnsat, res.AbsTime = ex.AbsQueries, ex.AbsUnsat, ex.AbsTime.Seconds()
 	for k := range ex.Encoded {
 		if strings.Contains(k, modPath) && !strings.Contains(k, "zzverif") && !strings.Contains(k, "ZZ_") && !strings.Contains(k, "zz") {
@@ -638,6 +640,7 @@ func writeEvidence(prop, tier string, seed int, r *checkResult) {
 		"discharged":                    discharged,
 		"assertion_ids":                 r.Asserts,
 		"harnesses":                     r.HarnessNames,
+		"per_harness":                   r.PerHarness,
 		"functions_encoded":             r.Encoded,
 		"functions_encoded_count":       len(r.Encoded),
 		"path_status":                   r.Status,
